@@ -12,7 +12,9 @@ MvnLs == {<< <<2>> >>, << <<1, 0>>, <<0 - 1, 2>> >>, << <<2, 0>>, <<1, 1>> >>, <
           \* covariances with an exact zero where the Cholesky factor fills in: (3,2) entry of L L^T is 2*1 + (-1)*2 = 0
           << <<1, 0, 0>>, <<1, 2, 0>>, <<2, 0 - 1, 1>> >>,
           << <<2, 0, 0, 0>>, <<1, 1, 0, 0>>, <<1, 0 - 1, 1, 0>>, <<0 - 1, 1, 1, 2>> >>}
-Zs(d) == {[i \in 1..d |-> 0], [i \in 1..d |-> IF i = 1 THEN 2 ELSE 0], [i \in 1..d |-> (i % 3) - 1], [i \in 1..d |-> IF i = d THEN 0 - 4 ELSE 1]}
+Zs(d) == {[i \in 1..d |-> 0], [i \in 1..d |-> IF i = 1 THEN 2 ELSE 0], [i \in 1..d |-> (i % 3) - 1], [i \in 1..d |-> IF i = d THEN 0 - 4 ELSE 1],
+          \* far in the tails: |z|^2 = 1600 and beyond (the density underflows, its logarithm does not)
+          [i \in 1..d |-> IF i = 1 THEN 40 ELSE 0], [i \in 1..d |-> IF i = d THEN 0 - 30 ELSE 25]}
 Init == \/ \E i \in 1..Len(Rows) : c = [i |-> i]
         \/ \E L \in MvnLs : \E z \in Zs(Len(L)) : c = [i |-> 0, L |-> L, z |-> z]
 Next == UNCHANGED c
